@@ -285,6 +285,11 @@ def main():
 
     # 3. harness
     multi = getattr(mod, "HARNESS_BINS", None)
+    if tier == "thorough" and getattr(mod, "HARNESS_BINS_THOROUGH", None):
+        # extra (slow to build) bins used by the thorough tier only, e.g. the all-widths sweep
+        multi = list(multi or [binname]) + list(mod.HARNESS_BINS_THOROUGH)
+        if not hasattr(mod, "ROUTE"):
+            mod.ROUTE = lambda l, _b=binname: _b
     if multi:
         # cross-cutting property: requests are routed to the harness bins of several vocabularies
         allbins, herr = {}, None
